@@ -53,7 +53,8 @@ def evaluate_case(prop, case):
 
 
 def digest(res):
-    text = repr(res.log) + repr([v.as_dict() for v in res.violations])
+    text = repr(res.log) + repr([v.as_dict() for v in res.violations]) + \
+        repr(getattr(res.run, 'events', None))
     return hashlib.sha256(text.encode()).hexdigest()
 
 
